@@ -31,13 +31,13 @@ VARIANTS = {
     "rel":   ("gcc",   ["-O2", "-DNDEBUG"]),
     "rel3":  ("gcc",   ["-O3", "-DNDEBUG"]),
     "dbg":   ("gcc",   ["-O1", "-g"]),
-    "asan":  ("clang", ["-O1", "-g", "-fsanitize=address,undefined", "-fno-sanitize=alignment",
+    "asan":  ("clang", ["-O1", "-g", "-fsanitize=address,undefined", "-fno-sanitize=alignment,pointer-overflow",
                         "-fno-sanitize-recover=undefined", "-fno-omit-frame-pointer", "-fno-common",
                         "-DBEE2_VERIF_EXACT_BLOB"]),
-    "asanw32": ("clang", ["-O1", "-g", "-fsanitize=address,undefined", "-fno-sanitize=alignment",
+    "asanw32": ("clang", ["-O1", "-g", "-fsanitize=address,undefined", "-fno-sanitize=alignment,pointer-overflow",
                         "-fno-sanitize-recover=undefined", "-fno-omit-frame-pointer", "-fno-common",
                         "-DBEE2_VERIF_EXACT_BLOB", "-DBEE2_VERIF_W32"]),
-    "asanrel": ("clang", ["-O1", "-g", "-DNDEBUG", "-fsanitize=address,undefined", "-fno-sanitize=alignment",
+    "asanrel": ("clang", ["-O1", "-g", "-DNDEBUG", "-fsanitize=address,undefined", "-fno-sanitize=alignment,pointer-overflow",
                         "-fno-sanitize-recover=undefined", "-fno-omit-frame-pointer", "-fno-common",
                         "-DBEE2_VERIF_EXACT_BLOB"]),
     "tsan":  ("clang", ["-O1", "-g", "-DNDEBUG", "-fsanitize=thread"]),
